@@ -30,20 +30,30 @@ def random_bool_case(ch, max_depth=5, kinds=('condition', 'predicate', 'expressi
     return {'kind': kind, 'text': text, 'this': schema, 'aliases': aliases}
 
 
-def small_cases(seed, stride, shard_no, nshards, boolean_only=True):
-    """Deterministic slice of the small-scope families: yields (family, inp)."""
+def small_cases(seed, stride, shard_no, nshards, boolean_only=True, quant_stride=None):
+    """Deterministic slice of the small-scope families: yields (family, inp).
+
+    quant_stride: a denser slice for the quantifier families (they are small and carry most rewriting rules).
+    """
     fams = small.families()
     names = small.boolean_family_names()
-    tot = small.total(fams)
-    idx = seed % stride + shard_no * stride
-    while idx < tot:
-        name, m = small.nth(fams, idx)
-        idx += stride * nshards
-        is_bool = name in names
+    base = 0
+    for f in fams:
+        n = len(f)
+        st = stride
+        if quant_stride is not None and f.name.startswith('quant'):
+            st = max(1, min(stride, quant_stride))
+        is_bool = f.name in names
         if boolean_only and not is_bool:
+            base += n
             continue
         kind = 'condition' if is_bool else 'expression'
-        yield name, {'kind': kind, 'text': mast.render(m), 'this': small.SMALL_THIS, 'aliases': small.SMALL_ALIASES}
+        idx = (seed + base) % st + shard_no * st
+        while idx < n:
+            m = f[idx]
+            idx += st * nshards
+            yield f.name, {'kind': kind, 'text': mast.render(m), 'this': small.SMALL_THIS, 'aliases': small.SMALL_ALIASES}
+        base += n
 
 
 def limit_for(tier):
